@@ -35,18 +35,19 @@ type c15UserOp struct {
 }
 
 type c15Scenario struct {
-	Kind        string        `json:"kind"`
-	Cap         int           `json:"cap"`
-	BufMax      int           `json:"buf_max"`
-	HookSize    int           `json:"hook_size"`
-	LoadDur     time.Duration `json:"load_dur"`
-	FreeDur     time.Duration `json:"free_dur"`
-	Users       [][]c15UserOp `json:"users"`
-	PoolMax     int           `json:"pool_max,omitempty"`
-	PoolStandBy int           `json:"pool_standby,omitempty"`
-	CloseQueue  bool          `json:"close_queue_with_pool,omitempty"`
-	CloseDelay  int           `json:"close_delay_yields"`
-	CloseSleep  time.Duration `json:"close_sleep"`
+	CorRequester bool          `json:"cor_finishing_is_the_requester,omitempty"`
+	Kind         string        `json:"kind"`
+	Cap          int           `json:"cap"`
+	BufMax       int           `json:"buf_max"`
+	HookSize     int           `json:"hook_size"`
+	LoadDur      time.Duration `json:"load_dur"`
+	FreeDur      time.Duration `json:"free_dur"`
+	Users        [][]c15UserOp `json:"users"`
+	PoolMax      int           `json:"pool_max,omitempty"`
+	PoolStandBy  int           `json:"pool_standby,omitempty"`
+	CloseQueue   bool          `json:"close_queue_with_pool,omitempty"`
+	CloseDelay   int           `json:"close_delay_yields"`
+	CloseSleep   time.Duration `json:"close_sleep"`
 
 	h         *Hist
 	hung      bool
@@ -143,6 +144,9 @@ func genC15(t *simrt.Tape, tier string) Scenario {
 		if crowd {
 			sc.Cap = t.Choose(4)
 		}
+		// the finishing coroutine is the one the user goroutines call YieldFrom ON (as requester,
+		// towards a live server coroutine), not the target of their requests
+		sc.CorRequester = !crowd && t.Bool(1, 3)
 	}
 	sc.CloseDelay = t.Choose(12)
 	if t.Bool(1, 4) {
@@ -368,8 +372,57 @@ func (sc *c15Scenario) runPool(s *simrt.Sim) {
 	}
 }
 
+func (sc *c15Scenario) runCorRequester(s *simrt.Sim) {
+	h := sc.h
+	var server, fin *fpgo.CorDef[int]
+	server = fpgo.CorNewGenerics[int](func() {
+		for i := 0; ; i++ {
+			server.YieldRef(2000 + i)
+			s.Yield()
+		}
+	})
+	finished := false
+	fin = fpgo.CorNewGenerics[int](func() {
+		for i := 0; i < sc.CloseDelay; i++ {
+			s.YieldHard()
+		}
+		finished = true
+		// returning completes the coroutine: this is the "close" of this kind
+	})
+	var ths []*simrt.Thread
+	for u, ops := range sc.Users {
+		u, ops := u, ops
+		name := fmt.Sprintf("user%d", u)
+		ths = append(ths, s.Go(name, func() {
+			for i := range ops {
+				x := u*100 + i
+				h.Do(name, "YieldFrom", x, func() (interface{}, error) { return fin.YieldFrom(server, x), nil })
+				s.Yield()
+			}
+		}))
+	}
+	ths = append(ths, s.Go("server-starter", func() { server.Start() }))
+	ths = append(ths, s.Go("fin-starter", func() { fin.Start() }))
+	done := func() bool { return allDone(ths)() && finished && fin.IsDone() }
+	if !s.WaitUntilTimeout(done, 20*time.Second) {
+		s.SetFair(true)
+		if !s.WaitUntilTimeout(done, 5*time.Minute) {
+			sc.hung = true
+			return
+		}
+	}
+	s.SetFair(true)
+	sc.probes["close-overlapped-user-call"]++
+	sc.probes["cor-requester-finishes"]++
+	s.Sleep(time.Second)
+}
+
 func (sc *c15Scenario) runCor(s *simrt.Sim) {
 	h := sc.h
+	if sc.CorRequester {
+		sc.runCorRequester(s)
+		return
+	}
 	var target *fpgo.CorDef[int]
 	served := 0
 	target = fpgo.CorNewGenerics[int](func() {
